@@ -1027,9 +1027,12 @@ class Eval:
             if 'err' in res and outcome != 'fail':
                 # the disk error is over (one-shot): requesting the value again has to recover, also through the same task object
                 j.disc('C05', 'I-recover', op['i'], f'{name}: request keeps failing after an earlier (transient) disk error', err=res['err'])
+            ran = set(got_inv)
             for (n, it2, loc, ob) in self.touched:
                 loc.last_run = {'valid': False}
-                if 'ok' not in res:
+                if 'ok' not in res or (it2.slug, chain['keys'].get(n)) not in ran:
+                    # (a predicted run that was not observed: the value came from memory the model knows nothing about -
+                    # whether the location holds a result is as unknown as before)
                     loc.state = 'indoubt'
                     loc.stage_exact = False
             return
